@@ -535,7 +535,7 @@ def step_harnesses():
             hs.append(H("c09_build_node__%s__l%s_%s" % (tag, ls, "eq" if je else "any"), ["C09"],
                         "crate::step_ops::graph_build_node::<%s, %d, %d, %s>(%s)" % (ty, nn, L, "true" if je else "false", arr),
                         unwind=uw, cap=1800, mem=20, stubs=["S1", "S2"], ofmt="old",
-                        tier="quick" if (q and not je and tag == "kmer3") else "thorough",
+                        tier="thorough",
                         funcs=["CompressFromGraph::build_node", "CompressFromGraph::extend_node", "CompressFromGraph::try_extend_node",
                                "DebruijnGraph::sequence_of_path", "Exts::from_single_dirs", "Exts::complement",
                                "ScmapCompress::reduce" if je else "SimpleCompress::reduce"],
